@@ -24,7 +24,7 @@ import math
 import re
 from typing import Any, Dict, List, Optional
 
-from .. import core, explorer, sched
+from .. import core, explorer, sched, twopass
 from ..jsonrpc_ref import classify, strict_eq
 from ..vloop import new_loop
 
@@ -150,9 +150,9 @@ async def judge_case(handler_factory, parse_message, supported, wire, v, count, 
             f"response {d!r} is not a valid response to id {wire['id']!r} ({why})", wire)
         return "invalid-response"
     if rk == "error":
-        if kind in ("supported", "absent"):
+        if kind == "supported":
             bad({"class": "supported-request-rejected", "request_kind": kind},
-                f"initialize for a supported / unspecified version was rejected: {d['error']!r}", wire)
+                f"initialize for a supported version was rejected: {d['error']!r}", wire)
         count("answer:error")
         return "error"
     result = d.get("result")
@@ -229,28 +229,48 @@ def run_block(cfg) -> Dict[str, Any]:
     def count(k, n=1):
         counters[k] = counters.get(k, 0) + n
 
+    cur: Dict[str, Any] = {}
+
     def bad(sig, msg, wire):
         key = json.dumps(sig, sort_keys=True)
         e = first.get(key)
         if e is None:
-            first[key] = {"sig": sig, "msg": f"{msg}; input={json.dumps(wire, ensure_ascii=True)}", "n": 1}
+            first[key] = {"sig": sig, "msg": f"{msg}; input={json.dumps(wire, ensure_ascii=True)}", "n": 1,
+                          "single": cur["single"], "rank": cur["rank"]}
         else:
             e["n"] += 1
         count("violating-judgements")
 
+    # cases: (requested value, clientInfo index, envelope shape, rank, single-case cfg)
+    W = "params-without-version"
+    single = cfg["part"] == "single"
+    versions = misc_versions(supported)
     if cfg["part"] == "grid":
-        cases = [(v, ci, "params-without-version") for v in grid_strings(cfg) for ci in CLIENT_INFOS]
-    else:  # misc: one requested value, every clientInfo variant
-        versions = misc_versions(supported)
+        cases = []
+        for v in grid_strings(cfg):
+            for k in range(len(CLIENT_INFOS)):
+                rank = int(v.replace("-", "")) * 2 + k
+                cases.append((v, k, W, rank, {"part": "single", "src": "grid", "v": v, "ci": k, "shape": W}))
+    elif cfg["part"] == "misc":  # one requested value, every clientInfo variant
         if cfg["v"] == -1:
-            cases = [(ABSENT, ci, sh) for sh in ABSENT_SHAPES for ci in
-                     (CLIENT_INFOS if sh == "params-without-version" else [ABSENT])]
+            combos = [(sh, k) for sh in ABSENT_SHAPES for k in
+                      (range(len(CLIENT_INFOS)) if sh == W else [0])]
         else:
-            cases = [(versions[cfg["v"]], ci, "params-without-version") for ci in CLIENT_INFOS]
+            combos = [(W, k) for k in range(len(CLIENT_INFOS))]
+        cases = []
+        for n, (sh, k) in enumerate(combos):
+            v = ABSENT if cfg["v"] == -1 else versions[cfg["v"]]
+            cases.append((v, k, sh, 10**12 + (cfg["v"] + 1) * 16 + n,
+                          {"part": "single", "src": "misc", "v": cfg["v"], "ci": k, "shape": sh}))
+    else:  # single case (second pass / replay file)
+        v = cfg["v"] if cfg["src"] == "grid" else (ABSENT if cfg["v"] == -1 else versions[cfg["v"]])
+        cases = [(v, cfg["ci"], cfg["shape"], 0, cfg)]
 
     async def block():
-        for v, ci, shape in cases:
-            tags.add(await judge_case(factory, parse_message, supported, build_init(v, ci, shape), v, count, bad))
+        for v, k, shape, rank, scfg in cases:
+            cur["single"], cur["rank"] = scfg, rank
+            tags.add(await judge_case(factory, parse_message, supported, build_init(v, CLIENT_INFOS[k], shape), v,
+                                      count, bad))
 
     loop = new_loop(horizon=5)
     status, val = loop.run_main(block())
@@ -260,8 +280,15 @@ def run_block(cfg) -> Dict[str, Any]:
         raise core.HarnessError(f"block {cfg} did not complete: {status} {val!r}")
     if errors:
         raise core.HarnessError(f"block {cfg}: event loop reported {errors[:2]}")
-    viol = [{"sig": e["sig"], "msg": e["msg"] + f" [first of {e['n']} in block {cfg}]"} for e in first.values()]
-    return {"outcome": "+".join(sorted(tags)), "violations": viol, "counters": counters}
+    if single:
+        return {"outcome": "+".join(sorted(tags)), "input": build_init(cases[0][0], CLIENT_INFOS[cases[0][1]], cases[0][2]),
+                "violations": [{"sig": e["sig"], "msg": e["msg"]} for e in first.values()],
+                "counters": {"single-cases": 1}}
+    for key, e in first.items():
+        count("sig:" + key, e["n"])
+        count(twopass.fail_key(e["sig"], e["rank"], e["single"]))
+    return {"outcome": "+".join(sorted(tags)), "failing_signatures": sorted(first), "violations": [],
+            "counters": counters}
 
 
 # ---------------------------------------------------------------------------
@@ -363,8 +390,23 @@ def run_pairing(cfg) -> Dict[str, Any]:
     if errors:
         viol.append({"sig": {"class": "loop-error"}, "msg": f"{errors[:2]}"})
     obs["outcome"] = kind + (":" + vkind(detail) if kind == "ok" else "")
-    obs["violations"] = viol
+    if cfg.get("single"):
+        obs["violations"] = viol
+        obs["counters"] = {"single-cases": 1}
+        return obs
+    obs["violations"] = []
+    obs["failing_signatures"] = sorted(json.dumps(v["sig"], sort_keys=True) for v in viol)
     obs["counters"] = {"pairing-cases": 1, "intersection-empty" if not inter else "intersection-nonempty": 1}
+    rank = 0
+    for i in cfg["sup"]:
+        rank = rank * 8 + i + 1
+    rank = (len(cfg["sup"]) * 8**4 + rank) * 8 + cfg["pref"] + 1
+    for v in viol:
+        obs["counters"][twopass.fail_key(v["sig"], rank, dict(cfg, single=True))] = 1
+        k = "sig:" + json.dumps(v["sig"], sort_keys=True)
+        obs["counters"][k] = obs["counters"].get(k, 0) + 1
+    if viol:
+        obs["counters"]["violating-judgements"] = len(viol)
     return obs
 
 
@@ -427,8 +469,10 @@ def run(tier: str, only=None) -> core.Result:
     for name, cfgs in parts.items():
         if only and name not in only:
             continue
-        out = explorer.explore(RUN, cfgs, audit_mod=31)
+        out = explorer.explore(RUN, cfgs)
         sched.absorb(res, name, RUN, out, cfgs)
+    # second pass: per signature the first failing cases (enumeration order), each executed alone, carry the violations
+    twopass.second_pass(res, RUN, list(parts), per_sig=3)
     g = res.parts.get("grid", {}).get("counters", {})
     m = res.parts.get("misc", {}).get("counters", {})
     p = res.parts.get("pairing", {}).get("counters", {})
@@ -441,6 +485,13 @@ def run(tier: str, only=None) -> core.Result:
     res.coverage["misc_cases"] = m.get("cases", 0)
     res.coverage["pairing_handshakes"] = p.get("pairing-cases", 0)
     res.coverage["misc_cases_also_in_grid"] = misc_dup
+    bysig: Dict[str, int] = {}
+    for cc in (g, m, p):
+        for k, n in cc.items():
+            if k.startswith("sig:"):
+                bysig[k[4:]] = bysig.get(k[4:], 0) + n
+    res.coverage["violating_judgements"] = sum(cc.get("violating-judgements", 0) for cc in (g, m, p))
+    res.coverage["violating_judgements_by_signature"] = dict(sorted(bysig.items()))
     res.coverage["rejected_by_parse_message"] = g.get("rejected-by-parse_message", 0) + m.get("rejected-by-parse_message", 0)
     res.coverage["library_supported_set"] = supported
     res.coverage["exhaustive"] = True
@@ -464,8 +515,8 @@ def run(tier: str, only=None) -> core.Result:
     )
     res.assumptions = [
         "the supported set is read from chuk_mcp.protocol.types.versioning.SUPPORTED_VERSIONS (the statement is relative to it)",
-        "an error response to an unsupported / malformed request is accepted (it acknowledges nothing); an error for a supported "
-        "or unspecified version is not",
+        "an error response to an unsupported / malformed / absent version is accepted (it acknowledges nothing); an error for a "
+        "supported version is not",
         "an absent protocolVersion may be answered with any supported version",
         "the pairing pump carries wire dicts (model_dump(exclude_none) -> JSON -> parse_message) like a transport; "
         "a handshake ending in VersionMismatchError is accepted even when client and server lists intersect",
